@@ -279,7 +279,7 @@ def WFText (E : Ext) : Term → Prop
 /-- constructing a literal from this lexical form leaves it alone (it is normalised already, or
     normalisation is off and the xsd:token / xsd:normalizedString white-space rule is met) -/
 def TextStable (E : Ext) (nz : Bool) : Term → Prop
-  | .lit x d _ => wsNorm d (if nz then E.normFull d x else x) = x
+  | .lit x d _ => newLex E nz d x = x
   | .node _ _ => True
 
 /-- `from_n3(t.n3()) == t` for every IRI `n3()` accepts, every blank node, every variable, every
@@ -333,17 +333,15 @@ theorem n3_roundtrip_partial (E : Ext) (nz : Bool) (t : Term) (txt : Str) (hE : 
           rcases List.mem_cons.mp hm with e | hm
           · revert e; decide
           · exact hq.1 hm
-        have hst' : (if nz = true then E.normFull none x else x) = x := by simpa [wsNorm] using hst
         rw [litN3_lang, fromN3_quoteEncode E nz x _ hs, litFromParts_lang E nz x _ hq.2]
-        simp [mkLit, Rd.ofExcept, hv, wsNorm, hst']
+        simp [mkLit, Rd.ofExcept, hv, hst]
     | none =>
       cases d with
       | none =>
-        have hst' : (if nz = true then E.normFull none x else x) = x := by simpa [wsNorm] using hst
         have h0 := fromN3_quoteEncode E nz x [] (by simp)
         rw [List.append_nil] at h0
         rw [litN3_plain, h0, litFromParts_plain]
-        simp [mkLit, Rd.ofExcept, wsNorm, hst']
+        simp [mkLit, Rd.ofExcept, hst]
       | some u =>
         obtain ⟨hne, hvu⟩ := hdt u rfl
         cases u with
@@ -388,7 +386,7 @@ theorem n3_roundtrip_witness : ¬ Statement_n3_roundtrip := by
 theorem n3_roundtrip_any_lexical (E : Ext) (x : Str) (d l : Option Str) (txt : Str) (hE : ExtOK E)
     (hw : WFText E (.lit x d l)) (hd : d ≠ some Tables.xsdNormalizedString ∧ d ≠ some Tables.xsdToken)
     (h : n3 E (.lit x d l) = some txt) : fromN3 E false txt = .term (.lit x d l) := by
-  have := n3_roundtrip_partial E false (.lit x d l) txt hE hw (by simp [TextStable, wsNorm, hd.1, hd.2]) h
+  have := n3_roundtrip_partial E false (.lit x d l) txt hE hw (by simp [TextStable, newLex, wsNorm, hd.1, hd.2]) h
   simpa [Term.plain] using this
 
 /-- `URIRef.n3` refuses exactly the IRIs with a character of `_invalid_uri_chars` -/
@@ -434,8 +432,8 @@ theorem reduce_rebuild_of_wsIdem (hws : WsIdem) : Statement_reduce_rebuild := by
         simp only [Option.isSome_none, Bool.false_eq_true, false_and, if_false, Except.ok.injEq] at h
         subst h
         simp only [reduce, rebuild, mkLit]
-        simp only [Option.isSome_none, Bool.false_eq_true, false_and, if_false, reduceCtorEq]
-        rw [hws]
+        simp only [Option.isSome_none, Bool.false_eq_true, false_and, if_false, reduceCtorEq, newLex]
+        rw [hws, hws]
       | some tag =>
         cases d with
         | some u => simp at h
@@ -445,8 +443,8 @@ theorem reduce_rebuild_of_wsIdem (hws : WsIdem) : Statement_reduce_rebuild := by
           · simp only [hv, if_true, Except.ok.injEq] at h
             subst h
             simp only [reduce, rebuild, mkLit, hne, hv, if_true, if_false, Option.isSome_none,
-              Bool.false_eq_true, and_false]
-            rw [hws]
+              Bool.false_eq_true, and_false, newLex]
+            rw [hws, hws]
           · simp [hv] at h
     by_cases hl : l = some []
     · subst hl
@@ -467,20 +465,20 @@ theorem constructed_text_stable (E : Ext) (nz : Bool) (x : Str) (l d : Option St
   have key : ∀ lang : Option Str, mkLit E nz x lang d = .ok t →
       ∃ y l', t = .lit (wsNorm d y) d l' := by
     intro lang h
-    simp only [mkLit] at h
+    simp only [mkLit, newLex] at h
     repeat' split at h
     all_goals first
       | (simp only [Except.ok.injEq] at h; exact ⟨_, _, h.symm⟩)
       | cases h
   obtain ⟨y, l', rfl⟩ := key l h
-  simp only [TextStable, Bool.false_eq_true, if_false]
-  exact wsNorm_idem d y
+  simp only [TextStable, newLex, Bool.false_eq_true, if_false]
+  rw [wsNorm_idem, wsNorm_idem]
 
 /-- the pre-fix `Literal.__reduce__` rebuilt with the default `normalize=True`: a literal with a lexical form
     that is not the normalised one came back changed (regression witness of C07-F2) -/
 theorem old_reduce_renormalises :
     mkLit normExt true ['0', '1'] none (some ['x']) = .ok (.lit ['1'] (some ['x']) none) := by
-  simp [mkLit, normExt, wsNorm, Tables.xsdNormalizedString, Tables.xsdToken]
+  simp [mkLit, newLex, normExt, wsNorm, Tables.xsdNormalizedString, Tables.xsdToken]
 
 /-! ## regenerated tables -/
 
@@ -519,12 +517,12 @@ example : WFText drvExt exLit := by
   · intro t h; cases h; decide
   · intro u h; cases h
   · intro u h; cases h
-example : TextStable drvExt false exLit := by simp [TextStable, exLit, wsNorm]
+example : TextStable drvExt false exLit := by simp [TextStable, exLit, newLex, wsNorm]
 example : n3 drvExt exLit = some "\"\"\"a\"\\\\\n\\\"\"\"\"@en".toList := by decide
 example : fromN3 drvExt false "\"\"\"a\"\\\\\n\\\"\"\"\"@en".toList = .term exLit := by decide
 example : eqb (.lit ['a'] none (some ['e', 'n'])) (.lit ['a'] none (some ['E', 'N'])) = true := by decide
 example : Reachable drvExt exLit :=
-  .lit false ['a', '"', '\\', '\n', '"'] (some ['e', 'n']) none _ (by simp [mkLit, wsNorm, exLit]; decide)
+  .lit false ['a', '"', '\\', '\n', '"'] (some ['e', 'n']) none _ (by simp [mkLit, newLex, wsNorm, exLit]; decide)
 example : (sortT (ltTerm strOracle) [.iri ['b'], .bnode ['z'], .var ['a'], .iri ['a']]) =
     [.bnode ['z'], .var ['a'], .iri ['a'], .iri ['b']] := by decide
 
